@@ -14,9 +14,13 @@ def step_cases(variants, sd, procs=16):
     cbuild.build()
     n = len(simdrv.slots())
     chunks = [(sd * 1000 + k, list(range(k, n, procs)), variants) for k in range(procs)]
+    v128 = max(2, variants // 4)
+    chunks128 = [(sd * 1000 + 500 + k, list(range(k, n, procs)), v128) for k in range(procs)]
     with mp.get_context('fork').Pool(procs) as pool:
+        parts128 = pool.map_async(simdrv.gen_and_run128, chunks128)
         parts = pool.map(simdrv.gen_and_run, chunks)
-    return [c for p in parts for c in p]
+        parts128 = parts128.get()
+    return [c for p in parts for c in p] + [c for p in parts128 for c in p]
 
 
 def judge_steps(rep, cases, wd, mode='c05', batch=40000):
